@@ -10,11 +10,15 @@
    that accumulate everything ever written or returned. The symbolic-crypto assumptions are the
    algebra itself: Enc opens only with its key, Hash / Kdf are one-way and free.
    Part 2 (unlock machine, Keys/Unlock.v): the gate, the frame of refusals, and the fate of the
-   wrong key a failed scrypt check leaves in masterKeyPriv. *)
+   wrong key a failed scrypt check leaves in masterKeyPriv.
+   Part 3 (keystore manager, Keys/Manager.v): several keystores in one KeystoreManager and the
+   keystore in use — every keystore is relocked and wiped after use whatever the selection was and
+   however it changed in between, refusals and operations on one keystore leave the others alone. *)
 From Coq Require Import List ZArith Bool.
 Import ListNotations.
 Require Import MW.Codec.Bip32 MW.Keys.Store MW.Keys.Secrecy MW.Keys.SecrecyProofs
-               MW.Keys.Unlock MW.Keys.UnlockProofs MW.Keys.Toy MW.Keys.SignWitness.
+               MW.Keys.Unlock MW.Keys.UnlockProofs MW.Keys.Toy MW.Keys.SignWitness
+               MW.Keys.Manager MW.Keys.ManagerProofs.
 Open Scope Z_scope.
 
 (* ------------------------------------------------------------------ Part 1 *)
@@ -198,6 +202,165 @@ Section C05Nul.
   Qed.
 End C05Nul.
 
+
+(* ------------------------------------------------------------------ Part 3: the keystore manager
+   (Keys/Manager.v): the managed keystores (id, configuration, unlock state of Part 2 each) and the
+   keystore in use. KeystoreManager calls [mop]: UseKeystoreForWallet, SignHash (the keystore is
+   resolved from the address over ALL managed keystores), ClearPrivKey, ExportKeystore, GetMnemonic,
+   CheckPrivPassphrase by id; callers' operations [wop]: any of these, or SignRawTx = per input (the
+   look-up in the wallet in use, the script closure on the keystore in use, SignHash) and the
+   deferred ClearPrivKey, with UseWallet requests of other callers interleaved at every point
+   where the signing goroutine holds no lock. [mreachable l m]: m is reached from the freshly
+   loaded keystores l by ANY list of callers' operations. *)
+Section C05Manager.
+  Variable kdf : bytes -> bytes -> bytes.
+  Variable digest : bytes -> bytes.
+  Variable shash : bytes -> bytes.
+  Variable open_box : bytes -> bytes -> option bytes.
+  Variable sk : Type.
+  Variable sig : Type.
+  Variable branch_ok : bytes -> bool.
+  Variable derive_sk : bytes -> Z -> Z -> option sk.
+  Variable sign : sk -> bytes -> sig.
+  Variable zfix : bool.
+  Variable sfix : bool.
+  Variable nfix : bool.
+  Variable cfix : bool.
+  Variable name_of : kid -> addr -> aname.
+
+  (* ClearPrivKey walks all managed keystores (see C05_manager_clear_in_use_only_refuted) *)
+  Hypothesis Cfix : cfix = true.
+  Hypothesis Sfix : sfix = true.
+  Hypothesis Nfix : nfix = true.
+
+  Local Notation mstep := (mstep kdf digest shash open_box sk sig branch_ok derive_sk sign zfix sfix nfix cfix name_of).
+  Local Notation sign_raw := (sign_raw kdf digest shash open_box sk sig branch_ok derive_sk sign zfix sfix nfix cfix name_of).
+  Local Notation wrun := (wrun kdf digest shash open_box sk sig branch_ok derive_sk sign zfix sfix nfix cfix name_of).
+  Local Notation mreachable := (mreachable kdf digest shash open_box sk sig branch_ok derive_sk sign zfix sfix nfix cfix name_of).
+  Local Notation lawful := (lawful kdf digest shash open_box sk branch_ok derive_sk).
+  Local Notation reachable := (reachable kdf digest shash open_box sk sig branch_ok derive_sk sign zfix sfix nfix).
+
+  (* (a) zeroing after use. In ANY manager state, every SignRawTx that gets past "no wallet in use"
+     — signed, or refused at any input for any reason, any passphrase, whichever keystores signed,
+     whatever keystore was in use and however the selection changed between the signatures and
+     the deferred clearing — leaves EVERY managed keystore locked with the master key, the salted
+     passphrase hash, the branch keys and the cached private keys gone *)
+  Theorem C05_manager_sign_raw_wipes_all : forall m p ins last,
+    fst (sign_raw m p ins last) <> MRefused MNoWalletInUse ->
+    Forall (fun e => wiped (e_st e)) (m_ks (snd (sign_raw m p ins last))).
+  Proof.
+    exact (sign_raw_outcome kdf digest shash open_box sk sig branch_ok derive_sk sign zfix sfix nfix cfix name_of Cfix).
+  Qed.
+
+  (* ... with nothing in use SignRawTx is refused before anything is touched *)
+  Theorem C05_manager_sign_raw_nothing_in_use : forall m p ins last,
+    current m = None -> sign_raw m p ins last = (MRefused MNoWalletInUse, m).
+  Proof.
+    exact (sign_raw_nothing_in_use kdf digest shash open_box sk sig branch_ok derive_sk sign zfix sfix nfix cfix name_of).
+  Qed.
+
+  (* ... and so does ClearPrivKey called on its own *)
+  Theorem C05_manager_clear_wipes_all : forall m,
+    Forall (fun e => wiped (e_st e)) (m_ks (snd (mstep m MClear))).
+  Proof.
+    exact (clear_wipes_all kdf digest shash open_box sk sig branch_ok derive_sk sign zfix sfix nfix cfix name_of Cfix).
+  Qed.
+
+  (* for EVERY list of the WalletManager's own calls from freshly loaded keystores (UseWallet,
+     SignRawTx with any interleaved UseWallet, ExportWallet, GetMnemonic, RemoveWallet's gate, any
+     passphrases, any wallets; not the bare SignHash entry point, which never clears): between any
+     two calls every managed keystore is locked with nothing derived or cached *)
+  Theorem C05_manager_wallet_calls_end_locked : forall l ops,
+    forallb wallet_call ops = true ->
+    Forall (fun e => locked (e_st e)) (m_ks (wrun (fresh l) ops)).
+  Proof.
+    exact (wallet_calls_end_locked kdf digest shash open_box sk sig branch_ok derive_sk sign zfix sfix nfix cfix name_of Cfix).
+  Qed.
+
+  (* (b) in EVERY reachable manager state (any operations before, the bare SignHash included) a
+     refused KeystoreManager call — any error, any keystore, in use or not — leaves the selection and
+     every keystore's unlocked flag, salted hash, branch keys, cached keys and salt unchanged (only
+     masterKeyPriv.Key of a locked keystore may hold the scratch value): it unlocks none.
+     ([lawful]: each keystore has its own passphrase and secrets satisfying the laws of Part 2.) *)
+  Theorem C05_manager_refusal_frames : forall l m o e,
+    Forall (fun ic => lawful (snd ic)) l -> mreachable l m ->
+    fst (mstep m o) = MRes (OutErr e) ->
+    m_cur (snd (mstep m o)) = m_cur m /\
+    Forall2 (fun a b => same_key sk a b /\ same_but_mk sk (e_st a) (e_st b)) (m_ks m) (m_ks (snd (mstep m o))).
+  Proof.
+    exact (manager_refusal_frames kdf digest shash open_box sk sig branch_ok derive_sk sign zfix sfix nfix cfix name_of Sfix Nfix).
+  Qed.
+
+  (* a refused SignRawTx leaves every keystore as it was or wiped: it unlocks none *)
+  Theorem C05_manager_sign_raw_refusal : forall m p ins last,
+    is_refusal (fst (sign_raw m p ins last)) = true ->
+    Forall2 (fun a b => same_key sk a b /\ (e_st b = e_st a \/ wiped (e_st b)))
+            (m_ks m) (m_ks (snd (sign_raw m p ins last))).
+  Proof.
+    exact (sign_raw_refusal kdf digest shash open_box sk sig branch_ok derive_sk sign zfix sfix nfix cfix name_of Cfix).
+  Qed.
+
+  (* (c) frame: a KeystoreManager call never changes an id or a configuration, and no keystore
+     but one it may touch ([touches]: the keystore with the given id, a keystore that has the
+     address; UseKeystoreForWallet none; ClearPrivKey all) ... *)
+  Theorem C05_manager_keystore_frame : forall m o,
+    Forall2 (fun a b => same_key sk a b /\ (touches sk name_of o a = false -> b = a))
+            (m_ks m) (m_ks (snd (mstep m o))).
+  Proof.
+    exact (keystore_frame kdf digest shash open_box sk sig branch_ok derive_sk sign zfix sfix nfix cfix name_of).
+  Qed.
+
+  (* ... of those at most ONE, the first ... *)
+  Theorem C05_manager_keystore_frame_one : forall m o, o <> MClear ->
+    m_ks (snd (mstep m o)) = m_ks m \/
+    exists l1 e e' l2, m_ks m = l1 ++ e :: l2 /\ m_ks (snd (mstep m o)) = l1 ++ e' :: l2 /\
+                       touches sk name_of o e = true /\ same_key sk e e' /\
+                       Forall (fun a => touches sk name_of o a = false) l1.
+  Proof.
+    exact (keystore_frame_one kdf digest shash open_box sk sig branch_ok derive_sk sign zfix sfix nfix cfix name_of).
+  Qed.
+
+  (* ... and only UseKeystoreForWallet changes the selection *)
+  Theorem C05_manager_selection_frame : forall m o,
+    (forall id, o <> MUse id) -> m_cur (snd (mstep m o)) = m_cur m.
+  Proof.
+    exact (selection_frame kdf digest shash open_box sk sig branch_ok derive_sk sign zfix sfix nfix cfix name_of).
+  Qed.
+
+  (* every managed keystore of every reachable manager state is in a reachable state of the
+     single-keystore machine: the theorems of Part 2 hold for each of them, in use or not *)
+  Theorem C05_manager_keystores_reachable : forall l m,
+    mreachable l m -> Forall (fun e => reachable (e_cfg e) (e_st e)) (m_ks m).
+  Proof.
+    exact (keystores_reachable kdf digest shash open_box sk sig branch_ok derive_sk sign zfix sfix nfix cfix name_of).
+  Qed.
+
+  (* the gate at manager level: in every reachable manager state export, reveal, the removal gate
+     (keystore found by id) and SignHash (keystore found through the address, 32-byte hash) succeed
+     exactly with THAT keystore's passphrase and answer the passphrase error for any other —
+     whether or not the keystore is in use, locked or left unlocked by an earlier SignHash *)
+  Theorem C05_manager_gate : forall l m e0 right acct ent sk_of p o,
+    zfix = true -> mreachable l m ->
+    unlock_laws kdf digest shash open_box sk branch_ok derive_sk (e_cfg e0) right acct ent sk_of ->
+    ((exists id, find (has_id id) (m_ks m) = Some e0 /\ (o = MExport id p \/ o = MMnemonic id p \/ o = MCheck id p)) \/
+     (exists n h, find (has_addr sk name_of n) (m_ks m) = Some e0 /\ length h = 32%nat /\ o = MSign p n h)) ->
+    (is_refusal (fst (mstep m o)) = false <-> p = right) /\
+    (p <> right -> fst (mstep m o) = MRes (OutErr EInvalidPassphrase)).
+  Proof.
+    exact (manager_gate kdf digest shash open_box sk sig branch_ok derive_sk sign zfix sfix nfix cfix name_of Cfix Sfix Nfix).
+  Qed.
+End C05Manager.
+
+(* (d) the variant "ClearPrivKey clears only the keystore in use" ([cfix] = false; seeded regression):
+   two keystores, wallet 1 in use. (i) WalletManager calls only: SignRawTx signs a coin of wallet 1
+   and another request selects wallet 2 before the deferred clearing — wallet 1 is not in use and
+   stays unlocked with master key, salted hash, branch keys and a private key in memory;
+   (ii) SignHash with a key of wallet 2, then an ordinary SignRawTx of wallet 1 — wallet 2 stays so. *)
+Theorem C05_manager_clear_in_use_only_refuted :
+  (forallb wallet_call w_switch = true /\ stays_unlocked (w_run false w_switch)) /\
+  stays_unlocked (w_run false w_other).
+Proof. exact clear_in_use_only_refuted. Qed.
+
 Print Assumptions C05_no_plain_secret.
 Print Assumptions C05_no_plain_secret_live.
 Print Assumptions C05_derivation_sound.
@@ -209,6 +372,18 @@ Print Assumptions C05_refusal_frames.
 Print Assumptions C05_wrong_key_never_used.
 Print Assumptions C05_salt_unfixed_refuted.
 Print Assumptions C05_nul_unfixed_refuted.
+Print Assumptions C05_manager_sign_raw_wipes_all.
+Print Assumptions C05_manager_sign_raw_nothing_in_use.
+Print Assumptions C05_manager_clear_wipes_all.
+Print Assumptions C05_manager_wallet_calls_end_locked.
+Print Assumptions C05_manager_refusal_frames.
+Print Assumptions C05_manager_sign_raw_refusal.
+Print Assumptions C05_manager_keystore_frame.
+Print Assumptions C05_manager_keystore_frame_one.
+Print Assumptions C05_manager_selection_frame.
+Print Assumptions C05_manager_keystores_reachable.
+Print Assumptions C05_manager_gate.
+Print Assumptions C05_manager_clear_in_use_only_refuted.
 
 (* non-vacuity: the attacker holding the public passphrase does reach public material ... *)
 Example C05_public_material_derivable :
@@ -228,3 +403,16 @@ Example C05_ex_history :
   length (w_insts wd) = 3%nat /\ length (w_secret wd) = 36%nat /\
   forallb okb (w_known wd) = true /\ existsb okb (w_secret wd) = false.
 Proof. vm_compute. repeat split; reflexivity. Qed.
+
+(* ... and the manager theorems are about histories that do sign: with the code as it is the two
+   histories of C05_manager_clear_in_use_only_refuted return their signature and end with every
+   keystore wiped (the selection having moved to wallet 2 in the first); in between wallet 2 WAS
+   unlocked while not in use; and wallet 2 refuses wallet 1's passphrase *)
+Example C05_manager_example :
+  Forall (fun e => wiped (e_st e)) (m_ks (w_run true w_switch)) /\
+  Forall (fun e => wiped (e_st e)) (m_ks (w_run true w_other)) /\
+  m_cur (w_run true w_switch) = Some 2 /\
+  (exists s, w_out true [WOp (MUse 1)] (WSignRaw [49] [([], [], w_name 1 (0, 0), w_hash)] [2]) = MSigs [s]) /\
+  stays_unlocked (w_run true (firstn 2 w_other)) /\
+  w_out true w_other (WOp (MExport 2 [49])) = MRes (OutErr EInvalidPassphrase).
+Proof. exact manager_example. Qed.
